@@ -76,7 +76,9 @@ func (fx *Fx) evalMulti(st *State, e ast.Expr) []Val {
 						fx.nilCheck(st, v.T, e, "nil-deref")
 						fs := c.sortOf(f.Type())
 						h := st.heap(fieldKey(named, f.Name()), "(Array Int "+fs+")")
+						fx.loadKey = fieldKey(named, f.Name())
 						v = fx.loaded(st, Val{T: fmt.Sprintf("(select %s %s)", h, v.T), S: fs, GT: f.Type()})
+						fx.loadKey = ""
 					} else {
 						if opaqueNamed(named) {
 							fx.unsup(e, "field of opaque type %s", named)
@@ -367,6 +369,9 @@ func (fx *Fx) evalSliceExpr(st *State, e *ast.SliceExpr) Val {
 func (fx *Fx) evalComposite(st *State, e *ast.CompositeLit) Val {
 	c := fx.c
 	t := fx.info.TypeOf(e)
+	if opaqueNamed(t) {
+		return Val{T: c.zero(t), S: c.sortOf(t), GT: t}
+	}
 	switch u := types.Unalias(t).Underlying().(type) {
 	case *types.Struct:
 		srt := c.sortOf(t)
